@@ -3,6 +3,7 @@ package main
 // C07: Base58 / Base58Check / bech32 / ConvertBits.
 
 import (
+	"strings"
 	"github.com/gcash/bchutil/base58"
 	"github.com/gcash/bchutil/bech32"
 )
@@ -163,6 +164,37 @@ func chkdec(c *Ctx, s string) Event { return c.Call(Event{"op": "CheckDecode", "
 func b32enc(c *Ctx, hrp string, data []byte, extra int) Event {
 	return c.Call(Event{"op": "Bech32Encode", "hrp": str(hrp), "data": ints(data), "extra": extra})
 }
+// b32Lookalikes: the valid string s (lower case) with 1..4 letters replaced by code points that Unicode case mapping
+// folds onto them (KELVIN SIGN -> k, dotted capital I -> i, long s -> S, dotless i -> I), in both case forms.
+// Only ASCII is bech32: all of them must be rejected.
+func b32Lookalikes(c *Ctx, s string) {
+	subs := map[byte][]string{'k': {"\u212a"}, 'i': {"\u0130", "\u0131"}, 's': {"\u017f"}}
+	for _, form := range []string{s, strings.ToUpper(s)} {
+		var pos []int
+		for i := 0; i < len(s); i++ {
+			if _, ok := subs[s[i]]; ok {
+				pos = append(pos, i)
+			}
+		}
+		for w := 1; w <= 4 && w <= len(pos); w++ {
+			pick := map[int]bool{}
+			for _, j := range c.Rng.Perm(len(pos))[:w] {
+				pick[pos[j]] = true
+			}
+			var sb strings.Builder
+			for i := 0; i < len(form); i++ {
+				if pick[i] {
+					alt := subs[s[i]]
+					sb.WriteString(alt[c.Rng.Intn(len(alt))])
+				} else {
+					sb.WriteByte(form[i])
+				}
+			}
+			b32dec(c, sb.String())
+		}
+	}
+}
+
 func b32dec(c *Ctx, s string) Event { return c.Call(Event{"op": "Bech32Decode", "s": str(s)}) }
 func cvbits(c *Ctx, d []byte, from, to int, pad bool, extra int) Event {
 	return c.Call(Event{"op": "ConvertBits", "data": ints(d), "from": from, "to": to, "pad": pad, "extra": extra})
@@ -306,6 +338,9 @@ func runC07(c *Ctx) {
 			if up[i] >= 'a' && up[i] <= 'z' {
 				up[i] -= 32
 			}
+		}
+		if k%6 == 0 {
+			b32Lookalikes(c, s)
 		}
 		switch k % 8 {
 		case 0:
